@@ -22,8 +22,8 @@ import traceback
 from . import boot
 
 ROOT = os.path.dirname(os.path.dirname(os.path.abspath(__file__)))
-EVIDENCE_DIR = os.path.join(ROOT, "evidence")
-REPLAY_DIR = os.path.join(ROOT, "replays")
+EVIDENCE_DIR = os.environ.get("GBSIM_EVIDENCE_DIR", os.path.join(ROOT, "evidence"))
+REPLAY_DIR = os.environ.get("GBSIM_REPLAY_DIR", os.path.join(ROOT, "replays"))
 KNOWN_FILE = os.path.join(ROOT, "known_findings.json")
 MAIN = os.path.join(ROOT, "gbsim_main.py")
 
@@ -60,27 +60,67 @@ def _worker(args):
         faulthandler.cancel_dump_traceback_later()
 
 
-def run_pool(tasks, njobs):
-    """Yield results in task order (deterministic aggregation)."""
+EARLY_STOP = 12  # runs with a new (not known-finding) violation after which the rest of the batch is skipped
+
+
+def _has_new_violation(pid, res, known):
+    return any(match_known(pid, v, known) is None for v in (res or {}).get("violations", []))
+
+
+def run_pool(tasks, njobs, known=()):
+    """Results in task order (deterministic aggregation).  Once EARLY_STOP runs have produced a violation that is not a
+    known finding the remaining runs are skipped: the verdict is already 'violated'."""
     results = [None] * len(tasks)
+    pid = tasks[0][0] if tasks else None
+    bad = 0
     if njobs <= 1:
         for i, t in enumerate(tasks):
             results[i] = _worker(t)
-        return results
+            bad += _has_new_violation(pid, results[i], known)
+            if bad >= EARLY_STOP:
+                break
+        return [r if r is not None else {"skipped": True, "violations": []} for r in results]
     ctx = mp.get_context("fork")
-    with cf.ProcessPoolExecutor(max_workers=njobs, mp_context=ctx) as ex:
+    deadline = float(os.environ.get("GBSIM_BATCH_TIMEOUT", str(max(600.0, 0.4 * len(tasks)))))
+    ex = cf.ProcessPoolExecutor(max_workers=njobs, mp_context=ctx)
+    try:
         futs = {ex.submit(_worker, t): i for i, t in enumerate(tasks)}
         try:
-            for f in cf.as_completed(futs, timeout=3600):
+            for f in cf.as_completed(futs, timeout=deadline):
                 i = futs[f]
                 try:
                     results[i] = f.result()
+                except cf.CancelledError:
+                    results[i] = {"skipped": True, "violations": []}
+                    continue
                 except BaseException as exc:
                     results[i] = {"idx": tasks[i][3], "seed": tasks[i][1], "harness_error": f"worker died: {exc!r}", "violations": []}
+                bad += _has_new_violation(pid, results[i], known)
+                if bad >= EARLY_STOP:
+                    for g in futs:
+                        g.cancel()
+                    break
+            if bad >= EARLY_STOP:
+                for f, i in futs.items():
+                    if results[i] is None:
+                        results[i] = {"skipped": True, "violations": []}
+                for proc in list(getattr(ex, "_processes", {}).values()):
+                    try:
+                        proc.kill()
+                    except Exception:
+                        pass
         except cf.TimeoutError:
             for f, i in futs.items():
                 if results[i] is None:
+                    f.cancel()
                     results[i] = {"idx": tasks[i][3], "seed": tasks[i][1], "harness_error": "batch wall timeout", "violations": []}
+            for proc in list(getattr(ex, "_processes", {}).values()):
+                try:
+                    proc.kill()
+                except Exception:
+                    pass
+    finally:
+        ex.shutdown(wait=False, cancel_futures=True)
     return results
 
 
@@ -180,7 +220,8 @@ def run_check(pid, tier, base_seed, out=sys.stdout):
         n_runs = int(os.environ["GBSIM_RUNS"])
     tasks = [(pid, derive_seed(base_seed, pid, i), tier, i) for i in range(n_runs)]
     print(f"[gbsim] property={pid} tier={tier} VERIF_SEED={base_seed} runs={n_runs} jobs={jobs()} repo={boot.REPO}", file=out, flush=True)
-    results = run_pool(tasks, jobs())
+    known = load_known()
+    results = run_pool(tasks, jobs(), known)
     wall_runs = time.time() - t0
     # aggregate -----------------------------------------------------------
     stats = {}
@@ -192,6 +233,8 @@ def run_check(pid, tier, base_seed, out=sys.stdout):
     for r in results:
         if r is None:
             harness.append("missing result")
+            continue
+        if r.get("skipped"):
             continue
         if r.get("harness_error"):
             harness.append(f"run {r.get('idx')} seed {r.get('seed')}: {r['harness_error']}")
@@ -211,7 +254,6 @@ def run_check(pid, tier, base_seed, out=sys.stdout):
     if not samples:
         samples = [r.get("sample") for r in results if r and r.get("sample") is not None][:3]
     exit_code = 0
-    known = load_known()
     reported = []
     known_hits = {}
     new_viols = []
@@ -256,7 +298,7 @@ def run_check(pid, tier, base_seed, out=sys.stdout):
         if exit_code == 0:
             exit_code = 2
     wall = time.time() - t0
-    evaluations = sum(1 for r in results if r and not r.get("harness_error"))
+    evaluations = sum(1 for r in results if r and not r.get("harness_error") and not r.get("skipped"))
     coverage = {
         "evaluations": evaluations,
         "distinct_nontrivial": len(sigs_nontrivial),
